@@ -47,6 +47,22 @@ type recorder struct {
 
 var errPlanned = &jrpc2.Error{Code: 4242, Message: "planned"}
 
+// busyErr: an error VALUE that is a nil pointer of a concrete type (a sentinel such as
+// `var ErrBusy error = (*busyErr)(nil)`): non-nil as an error, and to be handed on unchanged.
+type busyErr struct{ why string }
+
+func (b *busyErr) Error() string {
+	if b == nil {
+		return "busy"
+	}
+	return b.why
+}
+
+var errNilPointer error = (*busyErr)(nil)
+
+// plannedFlip: every third function that returns an error returns the nil-pointer sentinel.
+var plannedFlip int
+
 func sampleResult(t reflect.Type) reflect.Value {
 	v := reflect.New(t).Elem()
 	switch t.Kind() {
@@ -94,6 +110,9 @@ func makeFn(fd *fndesc, rec *recorder, retErr bool) any {
 	ft := reflect.FuncOf(ins, outs, fd.variadic)
 	if retErr {
 		rec.err = errPlanned
+		if plannedFlip++; plannedFlip%3 == 0 {
+			rec.err = errNilPointer
+		}
 	}
 	rets := make([]reflect.Value, len(outs))
 	for i, t := range outs {
@@ -172,7 +191,7 @@ func observeCalls(calls [][]string, rec *recorder, res any, herr error) string {
 	}
 	e := "none"
 	if herr != nil {
-		if herr == error(errPlanned) {
+		if herr == rec.err {
 			e = "same"
 		} else {
 			e = fmt.Sprintf("other%d", int(jrpc2.ErrorCode(herr)))
